@@ -510,6 +510,11 @@ func (w *Whisper) GetAllRawUnsortedPoints(archiveID int) (Points, error) {
 	return points, nil
 }
 
+// errCorruptedArchive is returned when the slots between two offsets do not match
+// the requested intervals, which happens when the base interval stored in the
+// archive is not aligned to its step.
+var errCorruptedArchive = errors.New("corrupted archive: base interval is not aligned")
+
 func (w *Whisper) fetchRawPoints(archiveID int, fromInterval, untilInterval Timestamp) (Points, error) {
 	r := &w.ArchiveInfoList()[archiveID]
 	baseInterval, err := w.baseInterval(r)
@@ -525,6 +530,9 @@ func (w *Whisper) fetchRawPoints(archiveID int, fromInterval, untilInterval Time
 	if fromOffset < untilOffset {
 		i := 0
 		for off := fromOffset; off < untilOffset; off += pointSize {
+			if i >= len(points) {
+				return nil, errCorruptedArchive
+			}
 			points[i], err = w.readPointAt(off)
 			if err != nil {
 				return nil, err
@@ -539,6 +547,9 @@ func (w *Whisper) fetchRawPoints(archiveID int, fromInterval, untilInterval Time
 
 	i := 0
 	for off := fromOffset; off < arcEndOffset; off += pointSize {
+		if i >= len(points) {
+			return nil, errCorruptedArchive
+		}
 		points[i], err = w.readPointAt(off)
 		if err != nil {
 			return nil, err
@@ -546,6 +557,9 @@ func (w *Whisper) fetchRawPoints(archiveID int, fromInterval, untilInterval Time
 		i++
 	}
 	for off := arcStartOffset; off < untilOffset; off += pointSize {
+		if i >= len(points) {
+			return nil, errCorruptedArchive
+		}
 		points[i], err = w.readPointAt(off)
 		if err != nil {
 			return nil, err
